@@ -367,8 +367,17 @@ void thrift_read_map_begin(thrift_decoder_t* dec,
  * ============================================================================
  */
 
-void thrift_skip(thrift_decoder_t* dec, thrift_type_t type) {
+/* Containers nest without touching nesting_level, so skipping carries its own
+ * depth bound: one stack frame per nested container byte otherwise. */
+#define THRIFT_MAX_SKIP_DEPTH 64
+
+static void thrift_skip_at_depth(thrift_decoder_t* dec, thrift_type_t type, int depth) {
     if (dec->status != CARQUET_OK) {
+        return;
+    }
+
+    if (depth >= THRIFT_MAX_SKIP_DEPTH) {
+        set_error(dec, CARQUET_ERROR_THRIFT_DECODE, "Nesting too deep to skip");
         return;
     }
 
@@ -412,7 +421,7 @@ void thrift_skip(thrift_decoder_t* dec, thrift_type_t type) {
             int32_t count;
             thrift_read_list_begin(dec, &elem_type, &count);
             for (int32_t i = 0; i < count && dec->status == CARQUET_OK; i++) {
-                thrift_skip(dec, elem_type);
+                thrift_skip_at_depth(dec, elem_type, depth + 1);
             }
             break;
         }
@@ -422,8 +431,8 @@ void thrift_skip(thrift_decoder_t* dec, thrift_type_t type) {
             int32_t count;
             thrift_read_map_begin(dec, &key_type, &value_type, &count);
             for (int32_t i = 0; i < count && dec->status == CARQUET_OK; i++) {
-                thrift_skip(dec, key_type);
-                thrift_skip(dec, value_type);
+                thrift_skip_at_depth(dec, key_type, depth + 1);
+                thrift_skip_at_depth(dec, value_type, depth + 1);
             }
             break;
         }
@@ -433,7 +442,7 @@ void thrift_skip(thrift_decoder_t* dec, thrift_type_t type) {
             thrift_type_t field_type;
             int16_t field_id;
             while (thrift_read_field_begin(dec, &field_type, &field_id)) {
-                thrift_skip(dec, field_type);
+                thrift_skip_at_depth(dec, field_type, depth + 1);
             }
             thrift_read_struct_end(dec);
             break;
@@ -447,6 +456,10 @@ void thrift_skip(thrift_decoder_t* dec, thrift_type_t type) {
             set_error(dec, CARQUET_ERROR_THRIFT_INVALID_TYPE, "Unknown type to skip");
             break;
     }
+}
+
+void thrift_skip(thrift_decoder_t* dec, thrift_type_t type) {
+    thrift_skip_at_depth(dec, type, 0);
 }
 
 /* ============================================================================
